@@ -19,6 +19,9 @@ Inductive eol_after_data : bytes -> Prop :=
 | E1_CR : eol_after_data [CR]
 | E1_CRLF : eol_after_data [CR; LF].
 
+(* with a correct /Length the end-of-line before endstream is optional *)
+Definition sep_after_data (e1 : bytes) : Prop := e1 = [] \/ eol_after_data e1.
+
 Lemma has_prefix_app_eol : forall p r e t,
   forallb (fun x => negb (is_eol x)) p = true -> is_eol e = true ->
   has_prefix p (r ++ e :: t) = has_prefix p r.
@@ -135,4 +138,34 @@ Proof.
       rewrite drop_space_eol1 by exact H1. apply has_prefix_self. }
     rewrite He. reflexivity.
   - fold data in Hd. rewrite Hd. exact Hrec.
+Qed.
+
+(* ---------- a correct /Length: whatever the data are, and with any white space - or none -
+   between the data and endstream ---------- *)
+Lemma drop_space_ws : forall ws t, forallb is_space ws = true -> drop_space (ws ++ kw_endstream ++ t) = kw_endstream ++ t.
+Proof.
+  induction ws as [|b ws IH]; intros t H; [reflexivity|].
+  cbn [forallb] in H. apply andb_true_iff in H as [Hb H]. cbn [app drop_space]. rewrite Hb. apply IH. exact H.
+Qed.
+
+Lemma stream_extent_declared_correct body e0 ws rest :
+  eol_before_data e0 -> forallb is_space ws = true ->
+  stream_extent (e0 ++ body ++ ws ++ kw_endstream ++ rest) (Some (Z.of_nat (length body))) = Ok (length e0, length body).
+Proof.
+  intros H0 Hws.
+  set (data := body ++ ws ++ kw_endstream ++ rest).
+  assert (He : endstream_at data (length body) = true).
+  { unfold endstream_at, data. rewrite skipn_app_exact by reflexivity. rewrite drop_space_ws by exact Hws. apply has_prefix_self. }
+  assert (Hlen : (Z.leb 0 (Z.of_nat (length body)) && Z.leb (Z.of_nat (length body)) (Z.of_nat (length data)))%Z = true).
+  { unfold data. rewrite app_length. lia. }
+  assert (Hk : stream_extent (e0 ++ data) (Some (Z.of_nat (length body))) =
+      (let length_ok :=
+         if (Z.leb 0 (Z.of_nat (length body)) && Z.leb (Z.of_nat (length body)) (Z.of_nat (length data)))%Z
+         then endstream_at data (Z.to_nat (Z.of_nat (length body))) else false in
+       if length_ok then Ok (length e0, Z.to_nat (Z.of_nat (length body)))
+       else match find_eol_endstream data with
+            | None => Err Malformed
+            | Some p => Ok (length e0, trim_at data p)
+            end)) by (destruct H0; reflexivity).
+  rewrite Hk. cbv zeta. rewrite Hlen, Nat2Z.id, He. reflexivity.
 Qed.
